@@ -56,6 +56,14 @@ class LDMService:
         self.last_checked_subscriptions_time: dict[SubscriptionInfo, TimestampIts] = {}
         self._lock = threading.RLock()
 
+    @property
+    def state_lock(self) -> threading.RLock:
+        """
+        Reentrant lock guarding the registries and the subscriptions. An interface that has to check a
+        registration and change a subscription as one step holds it across both calls.
+        """
+        return self._lock
+
     def attend_subscriptions(self) -> None:
         """
         Method to attend subscriptions as specified in the ETSI EN 302 895 V1.1.1 (2014-09). Section 6.3.4.
